@@ -222,6 +222,108 @@ def _inline_slice_objects(tree):
     ast.fix_missing_locations(tree)
 
 
+def _inline_local_constants(tree):
+    """Source normal form: a local name bound once, by ``name = <number>``
+    (a literal, or arithmetic / shifts / bit operations over literals and
+    other such names), reads as that number wherever it is used afterwards:
+    ``mask = (1 << bits) - 1`` ... ``w & mask`` reads ``w & ((1 << 3) - 1)``.
+    The binding statement stays."""
+    import copy as _copy
+
+    def numeric(e, consts):
+        if isinstance(e, ast.Constant):
+            return isinstance(e.value, (int, float)) and \
+                not isinstance(e.value, bool)
+        if isinstance(e, ast.Name):
+            return e.id in consts
+        if isinstance(e, ast.BinOp) and isinstance(
+                e.op, (ast.Add, ast.Sub, ast.Mult, ast.FloorDiv, ast.Mod,
+                       ast.LShift, ast.RShift, ast.BitAnd, ast.BitOr,
+                       ast.BitXor, ast.Pow)):
+            return numeric(e.left, consts) and numeric(e.right, consts)
+        if isinstance(e, ast.UnaryOp) and isinstance(
+                e.op, (ast.USub, ast.UAdd, ast.Invert)):
+            return numeric(e.operand, consts)
+        return False
+
+    def subst(e, consts):
+        class S(ast.NodeTransformer):
+            def visit_Name(self, n):
+                if isinstance(n.ctx, ast.Load) and n.id in consts:
+                    return ast.copy_location(_copy.deepcopy(consts[n.id]), n)
+                return n
+        return S().visit(_copy.deepcopy(e))
+
+    for fn in list(ast.walk(tree)):
+        if not isinstance(fn, (ast.FunctionDef, ast.AsyncFunctionDef)):
+            continue
+        stores = {}
+        for n in ast.walk(fn):
+            if isinstance(n, ast.Name) and isinstance(n.ctx, (ast.Store,
+                                                               ast.Del)):
+                stores[n.id] = stores.get(n.id, 0) + 1
+            elif isinstance(n, (ast.Global, ast.Nonlocal)):
+                for nm in n.names:
+                    stores[nm] = stores.get(nm, 0) + 5
+            elif isinstance(n, ast.arg):
+                stores[n.arg] = stores.get(n.arg, 0) + 5
+        # statements of fn's own body in source order
+        own = []
+        todo = list(fn.body)
+        while todo:
+            n = todo.pop()
+            own.append(n)
+            if isinstance(n, (ast.FunctionDef, ast.AsyncFunctionDef,
+                              ast.ClassDef, ast.Lambda)):
+                continue
+            todo.extend(ast.iter_child_nodes(n))
+        cands = [st for st in own if isinstance(st, ast.Assign) and
+                 len(st.targets) == 1 and
+                 isinstance(st.targets[0], ast.Name) and
+                 stores.get(st.targets[0].id) == 1]
+        cands.sort(key=lambda st: (st.lineno, st.col_offset))
+        consts = {}
+        where = {}
+        for st in cands:
+            if numeric(st.value, consts):
+                # only top-level statements of the function body or of
+                # blocks that are not loops re-running them matter little:
+                # the value is the same every time
+                consts[st.targets[0].id] = subst(st.value, consts)
+                where[st.targets[0].id] = (st.lineno, st.col_offset)
+        if not consts:
+            continue
+        # a use before the binding (textually) keeps the name
+        early = set()
+        for n in ast.walk(fn):
+            if isinstance(n, ast.Name) and isinstance(n.ctx, ast.Load) and \
+                    n.id in consts and (n.lineno, n.col_offset) < where[n.id]:
+                early.add(n.id)
+        for nm in early:
+            consts.pop(nm)
+        if not consts:
+            continue
+
+        class R(ast.NodeTransformer):
+            def visit_Name(self, n):
+                if isinstance(n.ctx, ast.Load) and n.id in consts:
+                    new = _copy.deepcopy(consts[n.id])
+                    for y in ast.walk(new):
+                        ast.copy_location(y, n)
+                    return new
+                return n
+
+            def visit_Assign(self, st):
+                # the binding statements themselves stay as written
+                if len(st.targets) == 1 and isinstance(
+                        st.targets[0], ast.Name) and \
+                        st.targets[0].id in consts:
+                    return st
+                return self.generic_visit(st)
+        fn.body = [R().visit(s_) for s_ in fn.body]
+    ast.fix_missing_locations(tree)
+
+
 def _split_parallel_assignments(tree):
     """Source normal form: ``a, b = x, y`` (displays of equal length, no
     starred part) reads ``a = x`` followed by ``b = y`` when no later value
@@ -733,6 +835,7 @@ def _normalise(tree):
     _split_parallel_assignments(tree)
     _inline_method_aliases(tree)
     _inline_slice_objects(tree)
+    _inline_local_constants(tree)
     _hoist_walrus(tree)
     _struct_objects(tree)
     _UnpackSlice().visit(tree)
@@ -792,12 +895,90 @@ def _normalise(tree):
 # --------------------------------------------------------------------------
 # Program model
 # --------------------------------------------------------------------------
+def _inline_new_constants(tree, modname):
+    """A module-level name the reference tree did not have, bound once to a
+    number (literal / arithmetic over literals), reads as that number in the
+    functions of the module that do not bind the name themselves - the
+    module-level counterpart of reading new helper functions as nested
+    ones: ``_ALL = 0xffff`` ... ``if sel == _ALL`` reads ``if sel == 65535``."""
+    import copy as _copy
+    known = _known_names().get(modname)
+    if known is None:
+        return
+
+    def numeric(e):
+        if isinstance(e, ast.Constant):
+            return isinstance(e.value, (int, float)) and \
+                not isinstance(e.value, bool)
+        if isinstance(e, ast.BinOp) and isinstance(
+                e.op, (ast.Add, ast.Sub, ast.Mult, ast.FloorDiv, ast.Mod,
+                       ast.LShift, ast.RShift, ast.BitAnd, ast.BitOr,
+                       ast.BitXor, ast.Pow)):
+            return numeric(e.left) and numeric(e.right)
+        if isinstance(e, ast.UnaryOp) and isinstance(
+                e.op, (ast.USub, ast.UAdd, ast.Invert)):
+            return numeric(e.operand)
+        return False
+    count = {}
+    for st in tree.body:
+        if isinstance(st, (ast.FunctionDef, ast.AsyncFunctionDef,
+                           ast.ClassDef)):
+            count[st.name] = count.get(st.name, 0) + 1
+            continue
+        for x in ast.walk(st):
+            if isinstance(x, ast.Name) and isinstance(x.ctx, (ast.Store,
+                                                               ast.Del)):
+                count[x.id] = count.get(x.id, 0) + 1
+    consts = {}
+    for st in tree.body:
+        if isinstance(st, ast.Assign) and len(st.targets) == 1 and \
+                isinstance(st.targets[0], ast.Name) and \
+                count.get(st.targets[0].id) == 1 and \
+                st.targets[0].id not in known and numeric(st.value):
+            consts[st.targets[0].id] = st.value
+    if not consts:
+        return
+    for n in ast.walk(tree):
+        if isinstance(n, ast.Global) and any(nm in consts
+                                             for nm in n.names):
+            for nm in n.names:
+                consts.pop(nm, None)
+    for fn in ast.walk(tree):
+        if not isinstance(fn, (ast.FunctionDef, ast.AsyncFunctionDef)):
+            continue
+        bound = set()
+        for x in ast.walk(fn):
+            if isinstance(x, ast.Name) and isinstance(x.ctx, (ast.Store,
+                                                               ast.Del)):
+                bound.add(x.id)
+            elif isinstance(x, ast.arg):
+                bound.add(x.arg)
+        use = {k: v for k, v in consts.items() if k not in bound}
+        if not use:
+            continue
+
+        class R(ast.NodeTransformer):
+            def visit_Name(self, n):
+                if isinstance(n.ctx, ast.Load) and n.id in use:
+                    new = _copy.deepcopy(use[n.id])
+                    for y in ast.walk(new):
+                        ast.copy_location(y, n)
+                    return new
+                return n
+        fn.body = [R().visit(s_) for s_ in fn.body]
+    ast.fix_missing_locations(tree)
+    for node in ast.walk(tree):
+        for child in ast.iter_child_nodes(node):
+            child._parent = node
+
+
 class Module(object):
     def __init__(self, name, path, src):
         self.name = name
         self.path = path
         self.src = src
         self.tree = _normalise(ast.parse(src, filename=path))
+        _inline_new_constants(self.tree, name)
         self.lines = src.splitlines()
         self.defs = {}      # qualname -> FunctionDef/ClassDef
         self.imports = {}   # local name -> dotted target ("pkg.mod" or
